@@ -256,8 +256,13 @@ pub struct GObs<C: CT> {
 }
 pub type Obs<C> = Vec<GObs<C>>;
 
+/// Whether `observe` also calls `groups()` (the same traversal as `members()`, filtered for
+/// sub-groups instead of individuals); switched off in the quick tier of C31 to save time.
+pub static OBSERVE_GROUPS: std::sync::atomic::AtomicBool = std::sync::atomic::AtomicBool::new(true);
+
 /// Every public membership query, for every group of the alphabet, in canonical (sorted) form.
 pub fn observe<C: CT>(y: &St<C>, groups: &[Id]) -> Result<Obs<C>, String> {
+    let with_groups = OBSERVE_GROUPS.load(Ordering::Relaxed);
     catch(|| {
         groups
             .iter()
@@ -266,7 +271,7 @@ pub fn observe<C: CT>(y: &St<C>, groups: &[Id]) -> Result<Obs<C>, String> {
                 root.sort();
                 let mut members: Vec<_> = y.members(*g).iter().map(|(m, a)| (*m, acc_key(a))).collect();
                 members.sort();
-                let mut grps: Vec<_> = y.groups(*g).iter().map(|(m, a)| (*m, acc_key(a))).collect();
+                let mut grps: Vec<_> = if with_groups { y.groups(*g).iter().map(|(m, a)| (*m, acc_key(a))).collect() } else { vec![] };
                 grps.sort();
                 GObs {
                     has: y.has_group(*g),
@@ -654,8 +659,10 @@ impl Accu {
         self.samples.dedup_by_key(|s| s.0);
         self.samples.truncate(5);
     }
-    /// Move everything into the report.  Violation occurrence counts are preserved.
-    pub fn flush(self, rep: &mut Report, part: &str) -> Value {
+    /// Move the counts into the report and the violations into `sink` (merged over all parts of
+    /// a check with the same "smallest reproduction" rule; `emit_violations` reports them at the
+    /// end, so the example shown for a key does not depend on which part found it first).
+    pub fn flush(self, rep: &mut Report, part: &str, sink: &mut BTreeMap<String, Viol>) -> Value {
         rep.evals(self.evals);
         rep.transitions += self.transitions;
         for s in &self.states {
@@ -672,14 +679,24 @@ impl Accu {
         }
         let mut vio = serde_json::Map::new();
         for (k, v) in &self.viols {
-            let mut replay = v.replay.clone();
-            if let Some(o) = replay.as_object_mut() {
+            let mut v = v.clone();
+            if let Some(o) = v.replay.as_object_mut() {
                 o.insert("part".into(), json!(part));
             }
-            for _ in 0..v.count.min(100_000) {
-                rep.violation(k.clone(), v.what.clone(), replay.clone());
-            }
             vio.insert(k.clone(), json!(v.count));
+            match sink.get_mut(k) {
+                Some(m) => {
+                    m.count += v.count;
+                    if (v.size, v.what.len(), &v.what) < (m.size, m.what.len(), &m.what) {
+                        m.what = v.what;
+                        m.replay = v.replay;
+                        m.size = v.size;
+                    }
+                }
+                None => {
+                    sink.insert(k.clone(), v);
+                }
+            }
         }
         let mut v = json!({
             "part": part,
@@ -715,7 +732,9 @@ pub fn set_deadline(thorough: bool, w: f64, w_remaining: f64) {
     let cap = std::env::var("VERIF_WALL_CAP_S").ok().and_then(|s| s.parse().ok()).unwrap_or(if thorough { 540.0f64 } else { 50.0 });
     let now = start.elapsed().as_secs_f64();
     let left = (cap - now).max(0.0);
-    let deadline = now + left * (w / w_remaining.max(w)).min(1.0);
+    // small parts always get a minimum slice (they finish within it on any machine)
+    let min_slice = if thorough { 20.0 } else { 5.0 };
+    let deadline = now + (left * (w / w_remaining.max(w)).min(1.0)).max(min_slice).min(left);
     DEADLINE_MS.store(((deadline * 1000.0) as u64).max(1), Ordering::Relaxed);
 }
 pub fn past_deadline() -> bool {
@@ -751,6 +770,18 @@ pub fn cpu_s() -> f64 {
     let f: Vec<&str> = rest.split_whitespace().collect();
     let t = |i: usize| f.get(i).and_then(|x| x.parse::<f64>().ok()).unwrap_or(0.0);
     (t(11) + t(12)) / 100.0
+}
+
+/// Report the violations collected over all parts (occurrence counts preserved up to 100000).
+pub fn emit_violations(rep: &mut Report, sink: BTreeMap<String, Viol>) {
+    let mut counts = serde_json::Map::new();
+    for (k, v) in sink {
+        counts.insert(k.clone(), json!(v.count));
+        for _ in 0..v.count.min(100_000) {
+            rep.violation(k.clone(), v.what.clone(), v.replay.clone());
+        }
+    }
+    rep.set("violation_occurrences", Value::Object(counts));
 }
 
 /// Run `work(item, &mut accu)` for every item on `threads` workers; accumulators are merged in
